@@ -460,9 +460,50 @@ pub mod life {
         bits
     }
 
+    /// SharedStream (the stream adapter of the shared receiver; it creates one shared receive future per item):
+    /// straight-line scenario - one optional buffered value, optional close, then two polls of the stream.
+    /// (A looping interpreter over the shared channel exhausts memory: > 22 GB at two symbolic steps.)
+    pub fn shared_stream_min<M: lock_api::RawMutex + 'static, S: Src>(s: &mut S, p: u32) -> u32 {
+        use futures_core::stream::{FusedStream, Stream};
+        let (tx, rx) = Mpmc::<M>::mk();
+        let sent = s.flag();
+        let closed = s.flag();
+        if sent { core::mem::forget(tx.try_send(Tag(1))); }
+        if closed { let _ = tx.close(); }
+        let mut st = ManuallyDrop::new(rx.into_stream());
+        if (p & P17) != 0 { assert!(!st.is_terminated(), "C17 shared stream: a fresh stream reports terminated"); }
+        let cell = WakeCell::new();
+        let waker = ManuallyDrop::new(mk_waker(&cell));
+        let mut cx = Context::from_waker(&waker);
+        let r1 = unsafe { Pin::new_unchecked(&mut *st) }.poll_next(&mut cx);
+        let mut ended = false;
+        if (p & P17) != 0 {
+            match r1 {
+                Poll::Ready(Some(t)) => { assert!(sent && t.0 == 1, "C17 shared stream: yielded an item that was never sent"); core::mem::forget(t); }
+                Poll::Ready(None) => { assert!(closed && !sent, "C17 shared stream: ended although the channel is open or a value is buffered"); ended = true; }
+                Poll::Pending => { assert!(!sent && !closed, "C17 shared stream: pending although a value is buffered or the channel is closed"); }
+            }
+            assert!(st.is_terminated() == ended, "C17 shared stream: is_terminated() differs from 'None was yielded'");
+        } else { core::mem::forget(r1); }
+        let r2 = unsafe { Pin::new_unchecked(&mut *st) }.poll_next(&mut cx);
+        if (p & P17) != 0 {
+            match r2 {
+                Poll::Ready(Some(t)) => { core::mem::forget(t); assert!(false, "C17 shared stream: yielded a second item although at most one was sent"); }
+                Poll::Ready(None) => { assert!(closed, "C17 shared stream: ended although the channel is open"); ended = true; }
+                Poll::Pending => { assert!(!closed, "C17 shared stream: pending although the channel is closed and drained"); }
+            }
+            assert!(st.is_terminated() == ended, "C17 shared stream: is_terminated() differs from 'None was yielded'");
+        } else { core::mem::forget(r2); }
+        core::mem::forget(tx);
+        let bits = (sent as u32) | ((closed as u32) << 1);
+        s.reached(bits);
+        bits
+    }
+
     pub fn replay(name: &str, _cfg: u32, p: u32, s: &mut ScriptSrc<'_>) -> bool {
         type NL = crate::LocalLock;
         match name {
+            "shared_stream_min" => { shared_stream_min::<NL, _>(s, p); }
             "shared_polls" => { shared_polls::<NL, _>(s, p); }
             "shared_polls_check" => { shared_polls::<CheckLock, _>(s, p); }
             "shared_mpmc" => { shared_mpmc::<NL, _>(s, 64, p); }
@@ -493,6 +534,9 @@ pub mod life {
                 }
             };
         }
+        #[kani::proof]
+        #[kani::unwind(4)]
+        fn shared_stream_min_c17() { let b = shared_stream_min::<NL, _>(&mut KaniSrc, P17); kani::cover!(b == 3, "W shared stream: value buffered and closed"); }
         #[kani::proof]
         #[kani::unwind(4)]
         fn repoll_panics_shared_send() {
